@@ -328,6 +328,17 @@ class NpShim(object):
         return NpShim._functional("percentile", a, (float(q), axis))
 
     @staticmethod
+    def sort(a, axis=-1, **k):
+        if not is_sym(a):
+            return _np.sort(a, axis=axis, **k)
+        use("np.sort")
+        if a.ndim != 1:
+            raise Unsupported("np.sort of a multi-dimensional proxy")
+        probe = sym._elem_num(a._snapshot()(sym._fresh_idx(a.axes, "p")))
+        kinds = (FIN,) if probe.isfin() is True else (FIN, NAN, PINF, NINF)
+        return sym.arrfn_atom("sort", a, (), kinds)
+
+    @staticmethod
     def isclose(a, b, **k):
         if not any_sym((a, b)):
             return _np.isclose(a, b, **k)
@@ -350,6 +361,40 @@ def _like_shape(shape, value, dtype):
 
 
 np_shim = NpShim()
+
+
+class _ScipyStats(object):
+    """scipy.stats: rank correlations are uninterpreted functionals of the two arrays (assumed contract A2)"""
+    def __getattr__(self, name):
+        import scipy.stats as _st
+        return getattr(_st, name)
+
+    @staticmethod
+    def spearmanr(a, b=None, **k):
+        import scipy.stats as _st
+        if not any_sym((a, b)):
+            return _st.spearmanr(a, b, **k)
+        use("scipy.stats.spearmanr")
+        return (sym.fn_atom("spearmanr", (a, b)), None)
+
+    @staticmethod
+    def kendalltau(a, b=None, **k):
+        import scipy.stats as _st
+        if not any_sym((a, b)):
+            return _st.kendalltau(a, b, **k)
+        use("scipy.stats.kendalltau")
+        return (sym.fn_atom("kendalltau", (a, b)), None)
+
+
+class _ScipyShim(object):
+    stats = _ScipyStats()
+
+    def __getattr__(self, name):
+        import scipy as _sp
+        return getattr(_sp, name)
+
+
+scipy_shim = _ScipyShim()
 
 
 # --------------------------------------------------------------------------------------------
